@@ -14,7 +14,7 @@ from . import common, dyn, hist, tlaval
 from .common import MachineryError
 from .dyn import F
 
-SCHEMA = {"types": {"Inner": [F("x", 1, "int32")],
+SCHEMA = {"types": {"Inner": [F("x", 1, "int32"), F("ys", 2, "int32", "repeated")],
                     "T": [F("f1", 1, "int32"), F("f2", 2, "string", "oneof", group="g1"), F("f3", 3, "message", "oneof", group="g1", msg="Inner"),
                           F("f4", 4, "int32", "oneof", group="g2"), F("f5", 5, "string", "oneof", group="g2"), F("f6", 6, "int32", "optional"),
                           F("f7", 7, "message", msg="Inner"), F("f8", 8, "wrap", vkind="int32")]},
@@ -36,7 +36,7 @@ def cfg(props, invs, maxlevel):
 
 def model_check(ctx, invs, props, quick):
     r = ctx.mc("MessageObj", cfg(props, invs, 5 if quick else 99), name="MessageObj_" + ctx.pid,
-               expect_actions=("ASet", "AGet", "AParse", "ABytes", "ADeepCopy", "ACopy", "APickle", "ANew1", "ASetIn", "AGetIn"),
+               expect_actions=("ASet", "AGet", "AParse", "ABytes", "ADeepCopy", "ACopy", "APickle", "ANew1", "ASetIn", "AGetIn", "AAppendIn"),
                timeout=900 if quick else 3000)
     return r
 
@@ -54,8 +54,10 @@ def aval(v):
         o = v["m"]
         kw = {f: s for f, s in o["slot"].items() if s["k"] != "ph"}
         if not kw:
-            return {"k": "msg", "m": {"x": av.aint(0)}, "fresh": True}
-        return {"k": "msg", "m": {"x": aval(kw["x"])}, "fresh": False}
+            return {"k": "msg", "m": {"x": av.aint(0), "ys": {"k": "list", "xs": []}}, "fresh": True}
+        return {"k": "msg", "m": {"x": aval(kw["x"]) if "x" in kw else av.aint(0), "ys": aval(kw["ys"]) if "ys" in kw else {"k": "list", "xs": []}}, "fresh": False}
+    if k == "r":
+        return {"k": "list", "xs": [aval(x) for x in v["xs"]]}
     raise AssertionError(v)
 
 
@@ -72,6 +74,8 @@ def conc(v):
         return v["v"]
     if k == "none":
         return None
+    if k == "r":
+        return [conc(x) for x in v["xs"]]
     if k == "m":
         o = v["m"]
         kw = {f: conc(s) for f, s in o["slot"].items() if s["k"] != "ph"}
@@ -101,7 +105,7 @@ def raw(m, ty):
     d = vars(m)
     slot = {}
     Inner = classes()["Inner"]
-    for f in (FIELDS if ty == "T" else ["x"]):
+    for f in (FIELDS if ty == "T" else ["x", "ys"]):
         v = d[f]
         if v is PLACEHOLDER:
             slot[f] = {"k": "ph"}
@@ -111,6 +115,8 @@ def raw(m, ty):
             slot[f] = {"k": "i", "v": int(v)}
         elif isinstance(v, str):
             slot[f] = {"k": "s", "v": v}
+        elif isinstance(v, list):
+            slot[f] = {"k": "r", "xs": [{"k": "i", "v": int(x)} for x in v]}
         elif isinstance(v, Inner):
             slot[f] = {"k": "m", "m": raw(v, "Inner")}
         else:
@@ -147,8 +153,11 @@ def apply_action(T, m, act, args, e, pure=False):
         e["op"], e["f"], e["x"], e["v"] = "setin", args[0], "x", aval(args[1])
         getattr(m, args[0]).x = conc(args[1])
     elif act == "AGetIn":
-        e["op"], e["f"], e["x"] = "getin", args[0], "x"
-        getattr(m, args[0]).x
+        e["op"], e["f"], e["x"] = "getin", args[0], args[1]
+        getattr(getattr(m, args[0]), args[1])
+    elif act == "AAppendIn":
+        e["op"], e["f"], e["x"], e["v"] = "appendin", args[0], "ys", av.aint(1)
+        getattr(m, args[0]).ys.append(1)
     elif act == "AParse":
         b = enc_entries(args[0])
         e["op"], e["b"] = "parse", list(b)
